@@ -1142,3 +1142,42 @@ def c20(ctx):
     if m:
         ctx.diagnostics["scope"] = {"flat_patterns": int(m.group(1)), "tree_patterns": int(m.group(2)), "names": int(m.group(3)),
                                     "pattern_name_pairs": int(m.group(1)) * int(m.group(3))}
+
+
+# ------------------------------------------------------------------- C18
+RULES["C18"] = ("the full cross product of spec/Cli.tla: source kind {-com, -src, both, neither} x stdout format {text, -json, "
+                "-formatted-json, both} x -json-file x -formatted-json-file x replace mode {default, NEW, NOTHING, OVERWRITE, "
+                "unknown} x -no-output x program {find with matches, find without, replace, failing} x files {one, glob, none "
+                "matching, flag absent} = 10240 configurations (all executed); non-trivial = a documented "
+                "invocation that prints or writes results")
+
+
+@check("C18")
+def c18(ctx):
+    ctx.technique = ("flag-vector state machine spec/Cli.tla model-checked (final-state invariants, termination) over all "
+                     "configurations; each configuration executed on the binary built from the working tree and compared with the "
+                     "model's final state and with the library's result")
+    d = ctx.scratch.sub("cli")
+    cfg = ("SPECIFICATION Spec\nINVARIANTS DocumentedExitsZero InvalidRefused Delivered ModeHonoured Emit\nPROPERTY Terminates\n"
+           "CHECK_DEADLOCK FALSE\n")
+    out, st = vlib.run_tlc(d, "Cli", cfg, workers=8, timeout=600, heap="4g")
+    if not st["ok"]:
+        raise Undecided("model checking of spec/Cli.tla failed:\n" + vlib.tlc_error_excerpt(out))
+    ctx.add_mc("Cli", st, "DocumentedExitsZero, InvalidRefused, Delivered, ModeHonoured in every final state; <>exit for every configuration")
+    docs = vlib.tlc_json_lines(out)
+    ep, rp = os.path.join(d, "expect.ndjson"), os.path.join(d, "report.json")
+    with open(ep, "w") as f:
+        for x in docs:
+            f.write(x + "\n")
+    binary = vlib.build_vore_binary()
+    p = subprocess.run([ctx.get_harness(), "clicheck", "-binary", binary, "-expect", ep, "-report", rp,
+                        "-every", "1",
+                        "-replaydir", os.path.join(vlib.VERIF, "replays", "C18")], capture_output=True, text=True, timeout=1800)
+    if p.returncode != 0 or not os.path.exists(rp):
+        raise Undecided("clicheck failed: " + p.stderr[-1500:])
+    with open(rp) as f:
+        rep = json.load(f)
+    for k in ("abstained_quirk", "ast_checked", "ast_mismatch", "rejected_by_compile", "programs"):
+        rep.setdefault(k, 0)
+    ctx.absorb("C18-cli", rep)
+    ctx.exhaustive = ctx.tier != "quick"
